@@ -174,7 +174,9 @@ class M:
             if o == "set_color":
                 L.append(f"rgb.set_color({c()}, {c()}, {c()})")
             elif o == "on":
-                L.append(f"rgb.on({c()}, {c()}, {c()})" if self.draw(st.booleans()) else f"rgb.on(blue={c()}, red={c()}, green={c()})")
+                form = self.draw(st.integers(0, 6))
+                L.append([f"rgb.on({c()}, {c()}, {c()})", f"rgb.on(blue={c()}, red={c()}, green={c()})", f"rgb.on({c()})", f"rgb.on({c()}, {c()})", f"rgb.on(green={c()})",
+                          f"rgb.on({c()}, blue={c()})", f"rgb.on(blue={c()}, green={c()})"][form])   # omitted components default to 255
             elif o == "on0":
                 L.append("rgb.on()")
             elif o == "off":
